@@ -71,9 +71,9 @@ Definition where_body (V : Type) (truth : V -> bool) (cd : bool) (t c u : ptenso
       if success && negb (forallb (fun kn => pmem (fst kn) (map fst ks)) kst) then Fail OtherError else
       a <- antiunify_list fuel c_vaxes u_vaxes {| as_list := []; as_next := next; as_warn := false |} ;;
       let '(lggs, ast) := a in
-      let gs := map (fun en => match en with (g, m, _, _) => (g, m) end) (as_list ast) in
-      let ecs := map (fun en => match en with (_, _, e, _) => e end) (as_list ast) in
-      let eus := map (fun en => match en with (_, _, _, f) => f end) (as_list ast) in
+      let gs := gs_of (as_list ast) in
+      let ecs := map part1 (as_list ast) in
+      let eus := map part2 (as_list ast) in
       let shp := map snd gs in
       let U1 := expanded V (length u_new) u_paxes eus u in
       ud <- to_dense_store V U1 ;;
